@@ -191,6 +191,9 @@ def env_partial(r):
 LAST_READ = []
 
 
+MUTATED = []      # objects the last step changed on request (in-place API): re-baselined, not judged
+
+
 def step(r, W, maps, mems):
     """perform one random operation on the workspace; returns (opname, new objects)"""
     def pick(size=None):
@@ -199,6 +202,22 @@ def step(r, W, maps, mems):
         if sym and r.random() < 0.8:       # constants fold away: prefer symbolic objects
             return r.choice(sym)
         return r.choice(c) if c else None
+    if len(W) >= 3 and r.random() < 0.09:
+        if r.random() < 0.5:
+            # a view of an object with the other (or the same) declared signedness is a new value; the object viewed keeps its own
+            x = pick()
+            return "flag-view", [x.signed() if r.random() < 0.5 else x.unsigned()]
+        # in-place slice store on a composite (the mutation API of comp): that object changes, by request; every OTHER
+        # object — the composites it was copied / viewed from, expressions embedding them — must keep its value
+        cs = [x for x in W if type(x).__name__ == "comp" and len(x.parts) >= 1 and x.size >= 2]
+        if cs:
+            s_ = r.choice(cs)
+            lo = r.randrange(0, s_.size)
+            hi = r.randrange(lo + 1, s_.size + 1)
+            v = pick(hi - lo) or cst(r.getrandbits(hi - lo), hi - lo)
+            MUTATED.append(s_)
+            s_[lo:hi] = v
+            return "comp-setitem-in-place", []
     k = r.random()
     if k < 0.10 or len(W) < 3:
         return "leaf", [new_leaf(r)]
@@ -319,6 +338,66 @@ def step(r, W, maps, mems):
     return "map-store-mem", []
 
 
+def children(e):
+    k = type(e).__name__
+    if k == "slc":
+        return [e.x]
+    if k == "comp":
+        return [p for _, p in sorted(e.parts.items())]
+    if k == "op":
+        return [e.l, e.r]
+    if k == "uop":
+        return [e.r]
+    if k == "tst":
+        return [e.tst, e.l, e.r]
+    if k in ("vec", "vecw"):
+        return list(e.l)
+    if k == "mem":
+        return [e.a.base]
+    if k == "ptr":
+        return [e.base]
+    return []
+
+
+def embeds(o, target, depth=0):
+    """o holds the very object `target` (by reference) somewhere below it"""
+    if depth > 40 or not isinstance(o, exp):
+        return False
+    for c in children(o):
+        if c is target or embeds(c, target, depth + 1):
+            return True
+    return False
+
+
+def sign_flags(e, depth=0):
+    """declared signedness of every node of an expression, in structural order (part of what the expression denotes:
+    it selects the signed reading in / % < >> and extensions)"""
+    if not isinstance(e, exp) or depth > 40:
+        return []
+    out = [bool(getattr(e, "sf", False))]
+    k = type(e).__name__
+    kids = []
+    if k == "slc":
+        kids = [e.x]
+    elif k == "comp":
+        kids = [p for _, p in sorted(e.parts.items())]
+    elif k == "op":
+        kids = [e.l, e.r]
+    elif k == "uop":
+        kids = [e.r]
+    elif k == "tst":
+        kids = [e.tst, e.l, e.r]
+    elif k in ("vec", "vecw"):
+        kids = list(e.l)
+    elif k == "mem":
+        kids = [e.a.base]
+    elif k == "ptr":
+        kids = [e.base]
+    for c in kids:
+        out += sign_flags(c, depth + 1)
+    return out
+
+
 def pickle_ok(o):
     """None if the pickled-and-restored object prints, compares and evaluates identically, else the aspect"""
     try:
@@ -335,6 +414,8 @@ def pickle_ok(o):
                 return "eq"
             if values(p) != values(o):
                 return "value"
+            if sign_flags(p) != sign_flags(o):
+                return "sign-flag"
         if isinstance(o, mapper):
             # the restored map must answer reads like the original: registers and memory through each base
             for n, w in REGS:
@@ -380,6 +461,14 @@ def main(tier):
                 name, new = "raises-" + type(ex).__name__, []
             trace.append(name)
             ck.count("op." + name.split("-")[0] if name.startswith("raises") else "op." + name)
+            if MUTATED:
+                for idx, (o, size, vals) in enumerate(base):
+                    # the object stored into, and expressions that hold that very object by reference, change by request
+                    if any(o is m_ or embeds(o, m_) for m_ in MUTATED):
+                        base[idx] = (o, o.size, values(o))
+                        pbase[idx] = probes(o)
+                        sbase[idx] = bool(o.sf)
+                del MUTATED[:]
             # every object that existed before must be unchanged in width and value
             for idx, (o, size, vals) in enumerate(base):
                 now = values(o)
@@ -416,7 +505,7 @@ def main(tier):
                                   real=repr(pn[which])[:300], expected=repr(pbase[idx][which])[:300])
                         pbase[idx] = pn
             for x in new:
-                if isinstance(x, exp) and not x._is_top and 0 < x.size <= 128:
+                if isinstance(x, exp) and not x._is_top and 0 < x.size <= 128 and not any(x is y_ for y_ in W):
                     W.append(x)
                     v = values(x)
                     base.append((x, x.size, v))
